@@ -1,6 +1,6 @@
 (* C16 — property theorems.  Only statements, [exact lemma] and Print Assumptions. *)
 From Coq Require Import ZArith List.
-From FV Require Import C16.Model C16.Proofs C16.Proofs2 C16.Proofs3 C16.Proofs4.
+From FV Require Import C16.Model C16.Proofs C16.Proofs2 C16.Proofs3 C16.Proofs4 C16.Proofs5.
 Import ListNotations.
 Open Scope Z_scope.
 
@@ -115,6 +115,30 @@ Theorem class_subtable_values_come_from_covering_rules : forall (V : Type) (rule
   exists c1 c2, In (c1, c2, v) rules /\ In x c1 /\ In y c2.
 Proof. exact @cpp_lookup_sound_lemma. Qed.
 
+(* split_subtables at the lookup level, for ANY number of split subtables in one lookup: the subtable count written
+   in the header equals the number of subtable offsets written (= the sum of the pieces), and if every split preserves
+   its subtable's answer (split_pp1/pp2/m2b_preserves) the lookup's first match is preserved *)
+Theorem split_lookup_count : forall (T : Type) (f : T -> option (list T)) (sts : list T),
+  split_count f sts = zlen (split_all f sts).
+Proof. exact @split_lookup_count_lemma. Qed.
+Theorem split_all_preserves : forall (T R : Type) (f : T -> option (list T)) (g : T -> option R) (sts : list T),
+  (forall s ps, In s sts -> f s = Some ps -> first_some g ps = g s) ->
+  first_some g (split_all f sts) = first_some g sts.
+Proof. exact @split_all_preserves_lemma. Qed.
+
+(* MarkToLigBuilder::insert_ligature (component counts as the API requires): the call succeeds and afterwards
+   (component i, class c) holds the anchor the call gives for component i when c is the call's class; every other
+   entry, including components for which the call gives None, is unchanged *)
+Theorem lig_insert_get : forall (A : Type) (cl : list (list (Z * A))) (cls : Z) (comps : list (option A)),
+  cl = [] \/ length comps = length cl ->
+  exists cl', lig_insert cl cls comps = Some cl' /\
+    forall i c, lig_get cl' i c =
+      match nth_error comps i with
+      | Some (Some a) => if c =? cls then Some a else lig_get cl i c
+      | _ => lig_get cl i c
+      end.
+Proof. exact @lig_insert_get_lemma. Qed.
+
 Print Assumptions coverage_get_spec.
 Print Assumptions coverage_get_spec_chosen_format.
 Print Assumptions coverage_format_choice_irrelevant.
@@ -137,3 +161,6 @@ Print Assumptions built_coverage_meets_split_assumptions.
 Print Assumptions class_rule_insert_touches_only_last_subtable.
 Print Assumptions class_rule_insert_preserves_earlier_answers.
 Print Assumptions class_subtable_values_come_from_covering_rules.
+Print Assumptions split_lookup_count.
+Print Assumptions split_all_preserves.
+Print Assumptions lig_insert_get.
